@@ -15,6 +15,9 @@ var _ = context.DeadlineExceeded
 func VerifDeadline() {
 	n := vParam("n")
 	d := New()
+	// the model identifies a time.Time with its nanosecond count and the zero Time with 0: keep
+	// every instant used here strictly positive so that "past" never denotes the zero Time
+	vAdvance(1000000)
 	var lastSet int64 // ghost: the most recent Set value (0 = zero time)
 
 	// observation from inside the setter goroutine: an atomic snapshot of the in-package state
@@ -32,7 +35,17 @@ func VerifDeadline() {
 			vAdvance(int64(vIntR("dt", i, 0, 1000)))
 			var t time.Time
 			var ns int64
-			switch vIntR("kind", i, 0, 2) {
+			var kind int
+			if pat := vParam("kinds"); pat >= 0 {
+				// one run per pattern of kinds (base-3 digits, first Set = lowest digit)
+				for j := 0; j < i; j++ {
+					pat /= 3
+				}
+				kind = pat % 3
+			} else {
+				kind = vIntR("kind", i, 0, 2)
+			}
+			switch kind {
 			case 0: // zero time: no deadline
 			case 1: // now or in the past
 				ns = vNow() - int64(vIntR("back", i, 0, 500))
